@@ -26,6 +26,7 @@
 (*  thr  uncaught throw of every kind of value through every entry point     *)
 (*  copy Otto.Copy() of runtimes in various states                           *)
 (*  expo Go-side accessors x nested arrays (shape x leaf kind x leaf kind)   *)
+(*  bw   writes of every value kind to bridged Go values                     *)
 (*  defp defineProperty / defineProperties with all 324 partial descriptors  *)
 (*       x exotic targets                                                    *)
 EXTENDS Naturals, Sequences, SequencesExt, FiniteSets, TLC, Json, Randomization, C02Fns
@@ -59,7 +60,7 @@ NestCase(api, ni, rep) == [fam |-> "src", api |-> api, nest |-> S!Nestings[ni].n
                            open |-> S!Nestings[ni].o, close |-> S!Nestings[ni].c, rep |-> rep]
 
 RecLimits == 0..8
-RecCase(form, d, l, mode) == [fam |-> "rec", form |-> form, d |-> d, l |-> l, mode |-> mode]
+RecCase(form, d, l, mode) == [fam |-> "rec", form |-> form, d |-> d, l |-> l, mode |-> mode, copies |-> 0]
 AllRecForms == S!RecForms \o S!UnboundedOnly
 NE == Len(S!EscItems)
 NH == Len(S!HistOps)
@@ -90,7 +91,9 @@ Init == /\ cs = None
            \/ Want("thr") /\ blk \in {<<"thr", e, 0>> : e \in 1..Len(S!ThrowEntries)}
            \/ Want("copy") /\ blk = <<"copy", 0, 0>>
            \/ Want("expo") /\ blk \in {<<"expo", sh, x>> : sh \in 1..Len(S!NestShapes), x \in 1..Len(S!Leaves)}
-           \/ Want("defp") /\ blk \in {<<"defp", t, r>> : t \in 1..Len(S!DefTargets), r \in 1..Len(S!DefRoutes)}
+           \/ Want("bw") /\ blk \in {<<"bw", t, 0>> : t \in 1..Len(S!BwTargets)}
+           \/ Want("defp") /\ blk \in {b \in {<<"defp", t, r>> : t \in 1..Len(S!DefTargets), r \in 1..Len(S!DefRoutes)} :
+                                          Deep = 1 \/ b[3] <= 3 \/ S!DefTargets[b[2]] \in S!DefConvTargets}
 
 Cases(b) ==
     LET fam == b[1]  i == b[2]  j == b[3]
@@ -124,12 +127,15 @@ Cases(b) ==
           [] fam = "rec" ->
                LET form == AllRecForms[i]
                    bounded == i <= Len(S!RecForms)
-               IN  {c \in ({RecCase(form, d, l, m) : d \in (IF bounded THEN 0..11 ELSE {0}), l \in RecLimits, m \in {"raw", "catch"}}
+                   \* the same cases on a Copy() (and a copy of a copy) made after the limit was set: a runtime derived
+                   \* from one with a configured limit has that limit
+                   WithCopies(cs0) == cs0 \cup {[x EXCEPT !.copies = n] : x \in {y \in cs0 : y.mode # "valuecall" \/ TRUE}, n \in {1, 2}}
+               IN  WithCopies({c \in ({RecCase(form, d, l, m) : d \in (IF bounded THEN 0..11 ELSE {0}), l \in RecLimits, m \in {"raw", "catch"}}
                            \cup {RecCase(form, 5000, 50, m) : m \in (IF bounded THEN {"raw", "catch"} ELSE {})}
                            \cup {RecCase(form, 1500, l, m) : l \in (IF bounded THEN {0, 20000} ELSE {}), m \in {"raw", "catch"}}
                            \cup {RecCase(form, 0, l, m) : l \in {50, 1000}, m \in {"raw", "catch"}}
                            \cup {RecCase(form, d, l, "valuecall") : d \in (IF form = "direct" THEN 1..10 ELSE {}), l \in RecLimits})
-                      : S!RecCaseOK(c.form, c.d, c.l, c.mode) /\ (c.d = 0 \/ c.l = 0 \/ c.d > 20 \/ (c.d >= c.l - 5 /\ c.d <= c.l + 2))}
+                      : S!RecCaseOK(c.form, c.d, c.l, c.mode) /\ (c.d = 0 \/ c.l = 0 \/ c.d > 20 \/ (c.d >= c.l - 5 /\ c.d <= c.l + 2))})
           [] fam = "acc" ->
                {c \in {[fam |-> "acc", acc |-> S!Accessors[a], kind |-> S!AccKinds[i], l |-> l] : a \in 1..Len(S!Accessors), l \in {0, 50}}
                   : S!AccCaseOK(c.acc, c.kind, c.l)}
@@ -151,6 +157,8 @@ Cases(b) ==
           [] fam = "expo" ->
                {[fam |-> "expo", acc |-> S!ExpoAccessors[a], shape |-> S!NestShapes[i], x |-> S!Leaves[j], y |-> S!Leaves[y]] :
                     a \in 1..Len(S!ExpoAccessors), y \in 1..Len(S!Leaves)}
+          [] fam = "bw" ->
+               {[fam |-> "bw", route |-> S!BwRoutes[r], target |-> S!BwTargets[i], val |-> Kinds[v]] : r \in 1..Len(S!BwRoutes), v \in 1..NK}
           [] fam = "defp" ->
                {[fam |-> "defp", route |-> S!DefRoutes[j], target |-> S!DefTargets[i], desc |-> d] : d \in S!Descs}
           [] fam = "copy" ->
@@ -162,7 +170,7 @@ Cases(b) ==
 Next == cs = None /\ UNCHANGED blk /\ cs' = [fam |-> "block"]
 
 (* the expectation of a case under an instance of the specification *)
-Expect(FnE(_, _, _, _), AccE(_, _, _), RecE(_, _, _, _), IrqE(_, _), SrcE(_, _), NestE(_, _, _), EscE(_, _, _, _), HistE(_), ThrE(_, _), CopyE(_), ExpoE(_, _, _, _), DefE(_, _, _), c) ==
+Expect(FnE(_, _, _, _), AccE(_, _, _), RecE(_, _, _, _), IrqE(_, _), SrcE(_, _), NestE(_, _, _), EscE(_, _, _, _), HistE(_), ThrE(_, _), CopyE(_), ExpoE(_, _, _, _), DefE(_, _, _), BwE(_, _, _), c) ==
     CASE c.fam = "fn" -> [reply |-> FnE(Fns[c.fi], c.route, c.recv, c.args), val |-> ""]
       [] c.fam = "acc" -> [reply |-> AccE(c.acc, c.kind, c.l), val |-> ""]
       [] c.fam = "rec" -> RecE(c.form, c.d, c.l, c.mode)
@@ -174,9 +182,10 @@ Expect(FnE(_, _, _, _), AccE(_, _, _), RecE(_, _, _, _), IrqE(_, _), SrcE(_, _),
       [] c.fam = "thr" -> [reply |-> ThrE(c.entry, c.val), val |-> ""]
       [] c.fam = "copy" -> [reply |-> CopyE(c.setup), val |-> ""]
       [] c.fam = "expo" -> [reply |-> ExpoE(c.acc, c.shape, c.x, c.y), val |-> ""]
+      [] c.fam = "bw" -> [reply |-> BwE(c.route, c.target, c.val), val |-> ""]
       [] c.fam = "defp" -> [reply |-> DefE(c.route, c.target, c.desc), val |-> ""]
-StrictE(c) == Expect(S!FnExpect, S!AccExpect, S!RecExpect, S!IrqExpect, S!SrcExpect, S!NestExpect, S!EscExpect, S!HistExpect, S!ThrowExpect, S!CopyExpect, S!ExpoExpect, S!DefExpect, c)
-LooseE(c) == Expect(L!FnExpect, L!AccExpect, L!RecExpect, L!IrqExpect, L!SrcExpect, L!NestExpect, L!EscExpect, L!HistExpect, L!ThrowExpect, L!CopyExpect, L!ExpoExpect, L!DefExpect, c)
+StrictE(c) == Expect(S!FnExpect, S!AccExpect, S!RecExpect, S!IrqExpect, S!SrcExpect, S!NestExpect, S!EscExpect, S!HistExpect, S!ThrowExpect, S!CopyExpect, S!ExpoExpect, S!DefExpect, S!BwExpect, c)
+LooseE(c) == Expect(L!FnExpect, L!AccExpect, L!RecExpect, L!IrqExpect, L!SrcExpect, L!NestExpect, L!EscExpect, L!HistExpect, L!ThrowExpect, L!CopyExpect, L!ExpoExpect, L!DefExpect, L!BwExpect, c)
 
 (* not generated: resource matters (see Totality!Heavy) and the slow witnesses of open deviations *)
 Skipped(c) ==
@@ -186,6 +195,7 @@ Skipped(c) ==
           \/ L!FnSlowSkip(f, c.route, c.recv, c.args)
     \* under an open deviation whose reply is a process death: one witness per form / value
     \/ c.fam = "rec" /\ L!RecExpect(c.form, c.d, c.l, c.mode).reply.resource /\ ~(c.l = 50)
+    \/ c.fam = "bw" /\ (S!BwHeavy(c.route, c.target, c.val) \/ (L!BwExpect(c.route, c.target, c.val).resource /\ c.val # "zero"))
     \/ c.fam = "thr" /\ L!ThrowExpect(c.entry, c.val).resource /\ ~(c.entry \in {"Run", "ObjectGet"})
 
 Live == {c \in Cases(blk) : ~Skipped(c)}
